@@ -235,7 +235,8 @@ class Report:
     def verdict(self, v, replay_payload=None):
         """v: dict printed by a trace spec (or built by an engine from TLC output)."""
         f = match_finding(self.findings, self.prop, v)
-        self.all_verdicts.append(v)
+        if os.environ.get("VERIF_DUMP_VERDICTS"):
+            self.all_verdicts.append({"verdict": v, "replay": replay_payload, "known": f["id"] if f else None})
         if f is not None:
             self.known.setdefault(f["id"], [f, 0])
             self.known[f["id"]][1] += 1
